@@ -6,6 +6,6 @@ TEXT["C17"] = {
     "engine": "harness/c17 (E-enum + E-api rapid + native fuzz entry)",
     "technique": "exhaustive small-scope enumeration + rapid generation against a reference parser/matcher written from docs, plus print/re-parse round-trip (metamorphic) oracle",
     "design_ref": "DESIGN.md §4 C17",
-    "level_text": "Every string up to length 6 (quick) / 8 (thorough) over {a,b,/,:,.} under three current packages is parsed as label and as pattern; strings inside the documented grammar must agree with an independent reference parser and matcher over a 70-label universe, every accepted string must survive print->re-parse with an identical match set. Random longer strings over a wider alphabet extend this by sampling. Exhaustive within the bound, exploration beyond it.",
-    "level_note": "Trusted: the reference grammar transcribed from docs/reference/labels.md; the 70-label universe separates all match sets of interest (prefix siblings, nested packages, the name 'all').",
+    "level_text": "Every string up to length 6 (quick) / 8 (thorough) over {a,b,/,:,.} under four current packages is parsed as label and as pattern; strings inside the documented grammar must agree with an independent reference parser and matcher over a 105-label universe, every accepted string must survive print->re-parse with an identical match set. Random longer strings over a wider alphabet extend this by sampling. Exhaustive within the bound, exploration beyond it.",
+    "level_note": "Trusted: the reference grammar transcribed from docs/reference/labels.md; the 105-label universe separates all match sets of interest (prefix siblings, nested packages, the name 'all').",
 }
